@@ -33,5 +33,6 @@ def run(chk, db):
     chk.explanation = (
         'All members of Encoding<Table> are summarised symbolically for each probe table definition (added, deleted, reordered and nested '
         'entries, handle entries); the recursive Index<N> helpers are flattened so the rules quantify over every declared entry id. '
-        'Per-entry value preservation reduces to C01 for the entry type; fungible entry types to C09.')
+        'Per-entry value preservation reduces to C01 for the entry type; fungible entry types to C09.'
+        ' Bounded reader/writer frame arithmetic (B.*), 64-bit ids/sizes through the dispatch path (NR) and Size() of entry values (SZ) are included because skipping, landing after the table and the declared entry size depend on them.')
     chk.assumptions = ['ids are never reused across versions (stated in the property)']
